@@ -17,6 +17,10 @@ REPO = os.environ.get('VERIF_REPO', '/repo')
 OUT = os.path.join(os.path.dirname(os.path.abspath(__file__)), '..', 'lean', 'BinlogVerif', 'Generated')
 
 
+sys.path.insert(0, os.path.dirname(os.path.abspath(__file__)))
+import cxxcanon
+
+
 class ExtractError(Exception):
     pass
 
@@ -27,8 +31,9 @@ def read(rel):
 
 
 def strip_comments(src):
-    src = re.sub(r'/\*.*?\*/', lambda m: re.sub(r'[^\n]', ' ', m.group(0)), src, flags=re.S)
-    return re.sub(r'//[^\n]*', '', src)
+    """comments removed AND formatting removed (tools/cxxcanon.py): nothing extracted below depends on white space, line
+    breaks, brace placement or `T& x` / `T &x`; patterns are written for that canonical text"""
+    return cxxcanon.canon_source(src)
 
 
 def functions(src):
@@ -271,7 +276,7 @@ def gen_session():
                  'reconsumeMetadata', 'minSeverity', 'setMinSeverity', 'consumeSpecialEntry'):
         body = method_body(sess, 'Session::' + name)
         first = body.strip().split(';')[0]
-        if re.match(r'std::lock_guard<std::mutex>\s+\w+\(_mutex\)', first.strip()):
+        if re.match(r'std::lock_guard<std::mutex>\s*\w+\(_mutex\)', first.strip()):
             locked.append(name)
     consume = method_body(sess, 'Session::consume')
     iu = consume.find('use_count()')
@@ -282,7 +287,7 @@ def gen_session():
     fence = re.search(r'if\s*\(\s*isClosed\s*\)\s*\{[^{}]*std::atomic_thread_fence\(\s*std::memory_order_(acquire|acq_rel|seq_cst)\s*\)', consume)
     fence_ok = bool(fence) and iu < fence.start() < ir
     # order of the writes inside consume: clock sync, sources, channel loop
-    ics, isrc, iloop = consume.find('_clockSync.data()'), consume.find('_sources.data()'), consume.find('for (std::shared_ptr<Channel>&')
+    ics, isrc, iloop = consume.find('_clockSync.data()'), consume.find('_sources.data()'), consume.find('for(std::shared_ptr<Channel>&')
     meta_first = 0 <= ics < isrc < iloop
     erase_ordered = 'std::remove_if' in consume and 'swap' not in consume
     mo = re.search(r'_minSeverity\.load\(std::memory_order_(\w+)\)', sess)
@@ -345,8 +350,8 @@ def gen_macros():
         m = re.search(r'VERIF_MARK_%s\b(.*?)VERIF_END' % n, text, flags=re.S)
         if not m:
             raise ExtractError('expansion of %s not found' % n)
-        e = re.sub(r'\s+', ' ', m.group(1))
-        g = re.search(r'do \{ if \(binlog::Severity::(\w+) >= (.*?)\.session\(\)\.minSeverity\(\)\) \{(.*)\} \} while \(false\)', e)
+        e = cxxcanon.canon_code(m.group(1))
+        g = re.search(r'do\{if\(binlog::Severity::(\w+)>=(.*?)\.session\(\)\.minSeverity\(\)\)\{(.*)\}\}while\(false\)', e)
         if not g:
             raise ExtractError('%s does not expand to `do { if (severity >= writer.session().minSeverity()) { … } } while (false)`: %s' % (n, e[:300]))
         sev, writer, body = g.group(1), g.group(2).strip(), g.group(3)
@@ -355,7 +360,7 @@ def gen_macros():
             raise ExtractError('%s: an argument or a source/event creation is outside the severity guard' % n)
         if body.count('bump()') < 1 or 'addEventSource' not in body or 'addEventIgnoreFirst' not in body:
             raise ExtractError('%s: the guarded block does not contain the source registration and the event' % n)
-        cat = re.search(r'binlog::EventSource\{ 0, binlog::Severity::\w+, "(\w+)"', body)
+        cat = re.search(r'binlog::EventSource\{0,binlog::Severity::\w+,"(\w+)"', body)
         table.append((n, sevval.get(sev, 0), writer == 'wr', cat.group(1) if cat else '?'))
     lean = ['import BinlogVerif.Props.C19', '/- GENERATED by tools/extract.py from the preprocessor expansion of the 24 log macros — do not edit -/',
             'namespace BinlogVerif.Generated', 'open BinlogVerif', '',
@@ -378,14 +383,25 @@ def gen_locks():
     members = ['_channels', '_clockSync', '_sources', '_sourcesConsumePos', '_nextSourceId', '_totalConsumedBytes',
                '_consumeClockSync', '_specialEntryBuffer']
     # members declared in the class must be exactly the known ones (+ the mutex and the atomic): a new member is a broken tie
-    cls = re.search(r'std::mutex _mutex;.*?\n\};', sess, flags=re.S)
-    if not cls:
+    i0 = sess.find('std::mutex _mutex;')
+    if i0 < 0:
         raise ExtractError('data member section of Session not found')
-    declared = set(re.findall(r'\b(_[A-Za-z]+)\b\s*(?:=|;|\{)', cls.group(0)))
+    # up to the end of the class: the first `}` at depth 0 counted from the mutex member
+    i, depth = i0, 0
+    while i < len(sess):
+        if sess[i] == '{':
+            depth += 1
+        elif sess[i] == '}':
+            if depth == 0:
+                break
+            depth -= 1
+        i += 1
+    section = sess[i0:i]
+    declared = set(re.findall(r'\b(_[A-Za-z]+)\b\s*(?:=|;|\{)', section))
     expected = set(members) | {'_mutex', '_minSeverity'}
     if declared != expected:
         raise ExtractError('data members of Session changed: %s' % sorted(declared ^ expected))
-    if not re.search(r'std::atomic<Severity>\s+_minSeverity', sess):
+    if not re.search(r'std::atomic<Severity>\s*_minSeverity', sess):
         raise ExtractError('_minSeverity is no longer std::atomic<Severity>')
     rows = []
     locked = {}
@@ -393,7 +409,7 @@ def gen_locks():
                  'reconsumeMetadata', 'consumeSpecialEntry', 'minSeverity', 'setMinSeverity'):
         body = method_body(sess, 'Session::' + name)
         first = body.strip().split(';')[0].strip()
-        is_locked = bool(re.match(r'std::lock_guard<std::mutex>\s+\w+\(_mutex\)', first))
+        is_locked = bool(re.match(r'std::lock_guard<std::mutex>\s*\w+\(_mutex\)', first))
         # consumeSpecialEntry is private and only called from consume (checked), hence under the lock
         if name == 'consumeSpecialEntry':
             callers = [n for n in ('createChannel', 'setChannelWriterId', 'setChannelWriterName', 'addEventSource', 'setClockSync',
